@@ -214,7 +214,7 @@ class Slice:
                 elif isinstance(v, ast.Call):
                     d = dotted(v.func) or ""
                     full = resolve_alias(d, self.fi)
-                    if full.startswith("photon_weave.extra.einsum_constructor."):
+                    if full.startswith("photon_weave.extra.einsum_"):
                         return ("GEN", full.split(".")[-1])
         if lit is None:
             return ("EINSUM?", src(s)[:30])
@@ -599,6 +599,29 @@ def collapse(repo: Repo) -> List[Ob]:
                 cond = _depends_on_outcome(a.value, f2, c2, n)
                 (obs.append(ok("COLLAPSE", f2, f"povm-post-state#{j}", ("C09",), a, "post-measurement state uses the operator of the drawn outcome")) if cond else
                  obs.append(bad("COLLAPSE", f2, f"povm-post-state#{j}", ("C09",), a, "the post-measurement state does not depend on the drawn outcome")))
+    # … and it is written on every path that leaves the function normally after the draw: the subsystems that survive (bystanders of a
+    # product space, the partner in an envelope) are conditioned on the reported outcome whatever happens to the measured ones.  A path on
+    # which the holder itself is destroyed (`self._set_measured()`) has nothing left to condition.
+    from .samp import sampler_calls
+    for q in POVM:
+        f2 = repo.func(q)
+        c2 = CFG(f2.node)
+        writes = {n for n in c2.nodes if n.kind == "stmt" and isinstance(n.ast, ast.Assign) and any(src(t) == "self.state" for t in n.ast.targets)
+                  and any(call_np(x) in ("einsum", "matmul") or (isinstance(x, ast.BinOp) and isinstance(x.op, ast.MatMult)) for x in ast.walk(n.ast.value))}
+        # a post-state first built in a local and then stored (`ps = einsum(…); self.state = ps / trace(ps)`)
+        writes |= {n for n in c2.nodes if n.kind == "stmt" and isinstance(n.ast, ast.Assign) and any(src(t) == "self.state" for t in n.ast.targets)
+                   and _depends_on_outcome(n.ast.value, f2, c2, n)}
+        gone = {n for n in c2.nodes for x in walk_node(n) if method_call(x) and method_call(x)[1] == "_set_measured" and src(method_call(x)[0]) == "self"}
+        draws = [c2.node_containing(c) for c, _ in sampler_calls(f2)]
+        draws = [d for d in draws if d is not None]
+        if not draws or not writes:
+            continue
+        for j, d in enumerate(draws, 1):
+            good = c2.always_followed_by(d, writes | gone)
+            (obs.append(ok("COLLAPSE", f2, f"povm-post-state-always#{j}", ("C09", "C05"), d.ast, "the post-measurement state is stored on every path after the draw")) if good else
+             obs.append(bad("COLLAPSE", f2, f"povm-post-state-always#{j}", ("C09", "C05"), d.ast,
+                            "after the outcome is drawn a normal return is reachable without storing M_k rho M_k^dagger / p_k: the subsystems that survive (bystanders of the product space, "
+                            "the partner in the envelope) keep the pre-measurement state instead of the state conditioned on the reported outcome")))
     # ProductState.measure: remaining tensor sliced by the outcome, then normalised
     ps = repo.func("ProductState.measure")
     cfg, lv = self_levels(ps)
